@@ -447,7 +447,7 @@ func (n *detNode) deliver(blockTime time.Time, txs [][]byte, meta []detTx) (bloc
 		if len(o.gas)-1 < len(meta) && r.Code == 11 {
 			for _, m := range meta[len(o.gas)-1].msgs {
 				if _, ok := m.(*protorevtypes.MsgSetBaseDenoms); ok {
-					// F19a: out of gas inside UpdatePools' map-ordered write loop
+					// (was F26, repaired by fix 94fb3c8: a recurrence is reported under this key and is no longer a known finding)
 					kn = "nondeterminism:gas-at-out-of-gas:map-order:protorev.UpdatePools"
 				}
 			}
